@@ -281,3 +281,158 @@ pub fn cond_cycle(kind: Kind) -> Program {
         root0: None,
     }
 }
+
+/// The 27 monotone node templates over three nodes (C12/C13).
+pub fn cyc_template(t: usize) -> Ex {
+    let pairs = [(0u8, 1u8), (0, 2), (1, 2)];
+    let ordered = [(0u8, 1u8), (0, 2), (1, 0), (1, 2), (2, 0), (2, 1)];
+    match t {
+        0 => k(0),
+        1 => k(1),
+        2 => cell(1),
+        3..=5 => call((t - 3) as u8),
+        6..=8 => {
+            let (i, j) = pairs[t - 6];
+            Ex::or(call(i), call(j))
+        }
+        9..=11 => Ex::or(call((t - 9) as u8), k(2)),
+        12..=14 => Ex::or(call((t - 12) as u8), cell(1)),
+        15..=17 => {
+            let (i, j) = pairs[t - 15];
+            Ex::and(call(i), call(j))
+        }
+        18..=20 => Ex::and(call((t - 18) as u8), k(3)),
+        _ => {
+            let (i, j) = ordered[t - 21];
+            Ex::ifc(0, call(i), call(j))
+        }
+    }
+}
+pub const N_CYC_T: usize = 27;
+
+pub fn cyc_prog(kind: Kind, t0: usize, t1: usize, t2: usize) -> Program {
+    Program {
+        name: format!("cy-{kind:?}-{t0}-{t1}-{t2}"),
+        cells: vec![(1, Dur::Low), (2, Dur::Low)],
+        nodes: vec![
+            NodeDef::new(kind, cyc_template(t0)).alt(cyc_template((t0 + 13) % N_CYC_T)),
+            NodeDef::new(kind, cyc_template(t1)),
+            NodeDef::new(kind, cyc_template(t2)),
+        ],
+        ext: vec![0],
+        root0: None,
+    }
+}
+
+pub fn all_cyc(kind: Kind) -> Vec<Program> {
+    let mut v = Vec::new();
+    for a in 0..N_CYC_T {
+        for b in 0..N_CYC_T {
+            for c in 0..N_CYC_T {
+                v.push(cyc_prog(kind, a, b, c));
+            }
+        }
+    }
+    v
+}
+
+/// Named shapes plus a stride sample of the full space.
+pub fn quick_cyc(kind: Kind, stride: usize) -> Vec<Program> {
+    let mut v = vec![];
+    let named: [(usize, usize, usize); 16] = [
+        (16, 8, 6),   // participant reaching the head only through a still-executing participant
+        (4, 26, 8),   // input-controlled branch between two back edges
+        (3, 1, 1),    // self loop on node 0
+        (10, 9, 1),   // 0 <-> 1 with constants
+        (13, 12, 2),  // 0 <-> 1 with input masks
+        (4, 5, 9),    // 3-cycle 0->1->2->0
+        (10, 7, 10),  // nested: 0 <-> 1 <-> 2
+        (22, 9, 1),   // conditional cycle
+        (6, 9, 1),    // cycle with tail
+        (7, 9, 9),    // two cycles sharing node 0
+        (16, 12, 13), // meet of two cyclic branches
+        (24, 9, 9),   // branch between two back edges
+        (13, 3, 4),   // all reach node 0
+        (9, 10, 11),  // three self loops with constants
+        (21, 21, 25), // conditional everywhere
+        (12, 16, 6),  // mixed join/meet
+    ];
+    for (a, b, c) in named {
+        let mut p = cyc_prog(kind, a, b, c);
+        // plain caller outside the cycles
+        p.nodes.push(NodeDef::new(Kind::Ev, Ex::add(call(0), call(2))));
+        p.name = format!("{}-caller", p.name);
+        v.push(p);
+    }
+    for (n, p) in all_cyc(kind).into_iter().enumerate() {
+        if n % stride == stride / 2 {
+            v.push(p);
+        }
+    }
+    v
+}
+
+pub fn cyc_alphabet(p: &Program) -> Vec<Op> {
+    let mut a = vec![Op::Set(0, 0), Op::Set(0, 1), Op::Set(1, 0), Op::Set(1, 2)];
+    for n in 0..p.nodes.len() as u8 {
+        a.push(Op::Q(n));
+    }
+    a.push(Op::Swap(0));
+    a
+}
+
+/// C15: systems without any fixpoint (selected by brute force), with a monotone alternative.
+pub fn nonconv_set() -> Vec<Program> {
+    let succ = |e: Ex| Ex::Succ(e.b());
+    let not = |e: Ex| Ex::Not(e.b());
+    let mut v = Vec::new();
+    let mk = |name: &str, nodes: Vec<NodeDef>| Program {
+        name: format!("nc-{name}"),
+        cells: vec![(1, Dur::Low), (2, Dur::Low)],
+        nodes,
+        ext: vec![0],
+        root0: None,
+    };
+    // node 2 is always an unrelated plain function of cell 1
+    let unrelated = || NodeDef::new(Kind::Ev, Ex::add(cell(1), k(1)));
+    v.push(mk("succ-self", vec![
+        NodeDef::new(Kind::Fx, succ(call(0))).alt(Ex::or(call(0), k(1))),
+        NodeDef::new(Kind::Ev, Ex::add(call(0), k(1))),
+        unrelated(),
+    ]));
+    v.push(mk("not-pair", vec![
+        NodeDef::new(Kind::Fx, not(call(1))).alt(Ex::or(call(1), k(1))),
+        NodeDef::new(Kind::Fx, call(0)),
+        unrelated(),
+    ]));
+    v.push(mk("succ-pair", vec![
+        NodeDef::new(Kind::Fx, succ(call(1))).alt(Ex::or(call(1), cell(1))),
+        NodeDef::new(Kind::Fx, Ex::or(call(0), k(0))),
+        unrelated(),
+    ]));
+    v.push(mk("nested-inner-diverges", vec![
+        NodeDef::new(Kind::Fx, Ex::or(call(1), k(1))),
+        NodeDef::new(Kind::Fx, Ex::or(succ(call(1)), Ex::and(call(0), k(0)))).alt(Ex::or(call(1), Ex::and(call(0), k(3)))),
+        unrelated(),
+    ]));
+    v.push(mk("cond-diverges", vec![
+        NodeDef::new(Kind::Fx, Ex::ifc(0, not(call(0)), Ex::or(call(0), k(2)))).alt(Ex::or(call(0), k(4))),
+        NodeDef::new(Kind::Ev, call(0)),
+        unrelated(),
+    ]));
+    v.push(mk("not-triangle", vec![
+        NodeDef::new(Kind::Fx, not(call(2))).alt(call(2)),
+        NodeDef::new(Kind::Fx, call(0)),
+        NodeDef::new(Kind::Fx, Ex::or(call(1), k(0))),
+        unrelated(),
+    ]));
+    v
+}
+
+pub fn nonconv_alphabet(p: &Program) -> Vec<Op> {
+    let mut a = vec![Op::Set(0, 0), Op::Set(0, 1), Op::Set(1, 1), Op::Swap(if p.name.contains("nested") { 1 } else { 0 })];
+    for n in 0..p.nodes.len() as u8 {
+        a.push(Op::Q(n));
+    }
+    a
+}
